@@ -76,9 +76,9 @@ KANI_UNITS = [dict(
         H("push_escaped_two_byte_utf8", "C07.K.push_escaped.two_byte_utf8", ["UriBuilder::push_escaped"],
           "every 2-byte UTF-8 sequence is fully %HH-encoded", kind="bounded", bound="all 2-byte UTF-8 sequences", tier="thorough", timeout=1500),
         H("push_query_parameter_raw_contract", "C07.K.push_query_parameter_raw", ["UriBuilder::push_query_parameter_raw"],
-          "one call through the real BytesMut path, symbolic in_path and every ASCII character as the value: '?' or '&', key \"k\", '=', escape; in_path false", timeout=1200),
+          "one call through the real BytesMut path, symbolic in_path and every ASCII character as the value: '?' or '&', key \"k\", '=', escape; in_path false", kind="bounded", bound="1 ASCII character value, key \"k\", empty buffer (general statement: C07.V.push_query_parameter_raw.post)", timeout=1200),
         H("push_path_parameter_raw_contract", "C07.K.push_path_parameter_raw", ["UriBuilder::push_path_parameter_raw"],
-          "one call through the real BytesMut path, every ASCII character as the value: '/' then itself or %HH; in_path kept", timeout=1200),
+          "one call through the real BytesMut path, every ASCII character as the value: '/' then itself or %HH; in_path kept", kind="bounded", bound="1 ASCII character value, empty buffer (general statement: C07.V.push_path_parameter_raw.post)", timeout=1200),
         H("push_literal_contract", "C07.K.push_literal", ["UriBuilder::push_literal"], "literal appended unchanged", kind="bounded", bound="literal \"/a/b\""),
         H("empty_values_keep_structure", "C07.K.empty_values", ["UriBuilder::push_path_parameter_raw", "UriBuilder::push_query_parameter_raw"],
           "empty value: the segment / pair is still produced", kind="bounded", bound="2 concrete calls"),
